@@ -4,7 +4,7 @@ SPECIFICATION Spec
 CONSTANTS
   OffsMod = 65536
   Part = "allpairs"
-  FlagSet <- FlagsLists
+  FlagSet <- FlagsDrift
   SchI = {1}
   UsrI = {2}
   PwI = {1}
